@@ -1,5 +1,282 @@
+/-
+  C16 — the bencode decoder accepts exactly well-formed input, and never panics.
+-/
 import RdestModel.Bencode.Encode
+set_option linter.unusedSimpArgs false
+set_option linter.unusedVariables false
 namespace Rdest.Props.C16
-open Rdest.Bencode
-theorem placeholder : isDigit 48 = true := by decide
+open Rdest Rdest.Bencode
+
+/-! ### The sub-parsers consume input -/
+
+theorem splitAt_length (stop : UInt8) (inp : Bytes) : (splitAt stop inp).2.1.length ≤ inp.length := by
+  induction inp with
+  | nil => simp [splitAt]
+  | cons b rest ih =>
+    simp only [splitAt]
+    split
+    · simp
+    · simp only [List.length_cons]; omega
+
+theorem parseByteStr_length (first : UInt8) (inp s rest : Bytes) (h : parseByteStr first inp = some (s, rest)) :
+    rest.length ≤ inp.length := by
+  unfold parseByteStr at h
+  simp only at h
+  repeat' split at h
+  all_goals first
+    | (simp only [Option.some.injEq, Prod.mk.injEq] at h
+       rw [← h.2]
+       have h0 := splitAt_length cColon inp
+       have h1 : ∀ (n : Nat) (l : Bytes), (l.drop n).length ≤ l.length := by intro n l; simp [List.length_drop]
+       exact Nat.le_trans (h1 _ _) h0)
+    | cases h
+
+theorem parseInt_length (inp rest : Bytes) (i : Int) (h : parseInt inp = some (i, rest)) : rest.length ≤ inp.length := by
+  unfold parseInt at h
+  simp only at h
+  have hs := splitAt_length cE inp
+  repeat' split at h
+  all_goals first
+    | (simp only [Option.some.injEq, Prod.mk.injEq] at h; rw [← h.2]; exact hs)
+    | cases h
+
+theorem consV_ok (v : BValue) (r : DRes) (vs : List BValue) (rest : Bytes) (h : consV v r = .ok (vs, rest)) :
+    ∃ vs', r = .ok (vs', rest) ∧ vs = v :: vs' := by
+  cases r with
+  | error e => simp [consV] at h
+  | ok p => obtain ⟨a, b⟩ := p; simp only [consV, Except.ok.injEq, Prod.mk.injEq] at h; exact ⟨a, by rw [← h.2], h.1.symm⟩
+
+/-- Whatever is left after decoding is a suffix no longer than the input. -/
+theorem values_length (c : Bool) (fuel : Nat) (inp : Bytes) (w : Bool) (vs : List BValue) (rest : Bytes)
+    (h : values c fuel inp w = .ok (vs, rest)) : rest.length ≤ inp.length := by
+  induction fuel generalizing inp w vs rest with
+  | zero => simp [values] at h
+  | succ fuel ih =>
+    cases inp with
+    | nil => simp only [values] at h; split at h <;> simp_all
+    | cons b t =>
+      simp only [values] at h
+      split at h
+      · split at h
+        · rename_i s r' hp
+          obtain ⟨vs', h', _⟩ := consV_ok _ _ _ _ h
+          have := ih _ _ _ _ h'; have := parseByteStr_length b t s r' hp
+          simp only [List.length_cons]; omega
+        · cases h
+      · split at h
+        · split at h
+          · rename_i i r' hp
+            obtain ⟨vs', h', _⟩ := consV_ok _ _ _ _ h
+            have := ih _ _ _ _ h'; have := parseInt_length t r' i hp
+            simp only [List.length_cons]; omega
+          · cases h
+        · split at h
+          · split at h
+            · rename_i items r' hl
+              obtain ⟨vs', h', _⟩ := consV_ok _ _ _ _ h
+              have := ih _ _ _ _ h'; have := ih _ _ _ _ hl
+              simp only [List.length_cons]; omega
+            · cases h
+          · split at h
+            · split at h
+              · rename_i items r' hl
+                split at h
+                · obtain ⟨vs', h', _⟩ := consV_ok _ _ _ _ h
+                  have := ih _ _ _ _ h'; have := ih _ _ _ _ hl
+                  simp only [List.length_cons]; omega
+                · cases h
+              · cases h
+            · split at h
+              · split at h
+                · simp only [Except.ok.injEq, Prod.mk.injEq] at h; rw [← h.2]; simp
+                · cases h
+              · cases h
+
+/-! ### T1: totality — the model function is total, and its fuel never runs out -/
+
+theorem consV_fuel (v : BValue) (r : DRes) (h : r ≠ .error .fuel) : consV v r ≠ .error .fuel := by
+  cases r with
+  | ok p => simp [consV]
+  | error e => simp only [consV]; intro c; apply h; simpa using c
+
+/-- With `fuel > |input|` the decoder never fails for lack of fuel: `decodeImpl` (fuel `|input| + 1`) is the
+    unbounded recursion of the Rust code. Being a total function, it returns for every byte string; it has no panic
+    outcome (every index, slice and conversion of the Rust code is guarded in the model by the same check). -/
+theorem T1_fuel_sufficient (c : Bool) (fuel : Nat) (inp : Bytes) (w : Bool) (hf : inp.length < fuel) :
+    values c fuel inp w ≠ .error .fuel := by
+  induction fuel generalizing inp w with
+  | zero => omega
+  | succ fuel ih =>
+    cases inp with
+    | nil => simp only [values]; split <;> simp
+    | cons b t =>
+      simp only [List.length_cons] at hf
+      simp only [values]
+      split
+      · split
+        · rename_i s r' hp
+          have := parseByteStr_length b t s r' hp
+          exact consV_fuel _ _ (ih _ _ (by omega))
+        · simp
+      · split
+        · split
+          · rename_i i r' hp
+            have := parseInt_length t r' i hp
+            exact consV_fuel _ _ (ih _ _ (by omega))
+          · simp
+        · split
+          · split
+            · rename_i items r' hl
+              have := values_length c fuel t true items r' hl
+              exact consV_fuel _ _ (ih _ _ (by omega))
+            · rename_i e hl
+              intro c'; simp only [Except.error.injEq] at c'; subst c'
+              exact ih t true (by omega) hl
+          · split
+            · split
+              · rename_i items r' hl
+                split
+                · have := values_length c fuel t true items r' hl
+                  exact consV_fuel _ _ (ih _ _ (by omega))
+                · simp
+              · rename_i e hl
+                intro c'; simp only [Except.error.injEq] at c'; subst c'
+                exact ih t true (by omega) hl
+            · split
+              · split <;> simp
+              · simp
+
+theorem T1_total (inp : Bytes) : values true (inp.length + 1) inp false ≠ .error .fuel :=
+  T1_fuel_sufficient true _ inp false (by omega)
+
+/-! ### T2 / T3: the implementation against the strict grammar -/
+
+/-- How the implementation (`eofCloses = true`) and the strict grammar relate on the same input and fuel:
+    equal results, except that the strict grammar may stop with "input ended inside a container" where the
+    implementation goes on. -/
+def Rel : DRes → DRes → Prop
+  | .ok r, .ok r' => r = r'
+  | .ok _, .error e => e = .eofInContainer
+  | .error e, .error e' => e = e' ∨ e' = .eofInContainer
+  | .error _, .ok _ => False
+
+theorem rel_consV (v : BValue) (a b : DRes) (h : Rel a b) : Rel (consV v a) (consV v b) := by
+  cases a with
+  | ok ra => cases b with
+    | ok rb => simp only [Rel] at h; subst h; simp [consV, Rel]
+    | error e => simpa [consV, Rel] using h
+  | error ea => cases b with
+    | ok rb => simp [Rel] at h
+    | error eb => simpa [consV, Rel] using h
+
+theorem rel_values (fuel : Nat) (inp : Bytes) (w : Bool) : Rel (values true fuel inp w) (values false fuel inp w) := by
+  induction fuel generalizing inp w with
+  | zero => simp [values, Rel]
+  | succ fuel ih =>
+    cases inp with
+    | nil => cases w <;> simp [values, Rel]
+    | cons b t =>
+      simp only [values]
+      split
+      · split
+        · exact rel_consV _ _ _ (ih _ _)
+        · simp [Rel]
+      · split
+        · split
+          · exact rel_consV _ _ _ (ih _ _)
+          · simp [Rel]
+        · split
+          · -- list
+            have hin := ih t true
+            cases h1 : values true fuel t true with
+            | ok r1 =>
+              cases h2 : values false fuel t true with
+              | ok r2 =>
+                rw [h1, h2] at hin; simp only [Rel] at hin; subst hin
+                exact rel_consV _ _ _ (ih _ _)
+              | error e2 =>
+                rw [h1, h2] at hin; simp only [Rel] at hin; subst hin
+                simp only []
+                cases consV (BValue.list r1.1) (values true fuel r1.2 w) <;> simp [Rel]
+            | error e1 =>
+              cases h2 : values false fuel t true with
+              | ok r2 => rw [h1, h2] at hin; simp [Rel] at hin
+              | error e2 => rw [h1, h2] at hin; simpa [Rel] using hin
+          · split
+            · -- dictionary
+              have hin := ih t true
+              cases h1 : values true fuel t true with
+              | ok r1 =>
+                cases h2 : values false fuel t true with
+                | ok r2 =>
+                  rw [h1, h2] at hin; simp only [Rel] at hin; subst hin
+                  simp only []
+                  split
+                  · exact rel_consV _ _ _ (ih _ _)
+                  · simp [Rel]
+                | error e2 =>
+                  rw [h1, h2] at hin; simp only [Rel] at hin; subst hin
+                  simp only []
+                  split
+                  · cases consV _ (values true fuel r1.2 w) <;> simp [Rel]
+                  · simp [Rel]
+              | error e1 =>
+                cases h2 : values false fuel t true with
+                | ok r2 => rw [h1, h2] at hin; simp [Rel] at hin
+                | error e2 => rw [h1, h2] at hin; simpa [Rel] using hin
+            · split
+              · split <;> simp [Rel]
+              · simp [Rel]
+
+/-- **T2 (completeness).** Every input the strict grammar accepts — a sequence of well-formed bencoded values — is
+    accepted by the decoder, with the same values. -/
+theorem T2_accepts_well_formed (inp : Bytes) (vs : List BValue) (h : decodeStrict inp = some vs) :
+    decodeImpl inp = some vs := by
+  unfold decodeStrict decodeStrictE at h
+  unfold decodeImpl
+  have hr := rel_values (inp.length + 1) inp false
+  cases h2 : values false (inp.length + 1) inp false with
+  | error e => rw [h2] at h; simp [toOpt] at h
+  | ok r2 =>
+    rw [h2] at h hr
+    cases h1 : values true (inp.length + 1) inp false with
+    | error e => rw [h1] at hr; simp [Rel] at hr
+    | ok r1 => rw [h1] at hr; simp only [Rel] at hr; subst hr; exact h
+
+/-- The full soundness statement of the property. -/
+def C16_soundness_full : Prop := ∀ (inp : Bytes) (vs : List BValue), decodeImpl inp = some vs → decodeStrict inp = some vs
+
+/-- It is FALSE for the code as it is (recorded finding F1): `l` is accepted. -/
+theorem C16_soundness_full_refuted : ¬ C16_soundness_full := by
+  intro h
+  have h1 : decodeImpl [cL] = some [.list []] := rfl
+  have h2 : decodeStrict [cL] = none := rfl
+  have := h [cL] [.list []] h1
+  rw [h2] at this; cases this
+
+/-- **T3 (soundness), partial.** Whatever the decoder accepts is accepted by the strict grammar with the same values
+    — unless the input ends inside a list or dictionary (`EofInsideContainer`, the recorded class F1): every other
+    malformed input (truncated strings and integers, missing `:`, non-canonical integers, stray `e`, unknown bytes,
+    odd dictionaries, non-string keys) is rejected. -/
+theorem T3_soundness_partial (inp : Bytes) (vs : List BValue) (h : decodeImpl inp = some vs) :
+    decodeStrict inp = some vs ∨ EofInsideContainer inp = true := by
+  unfold decodeImpl at h
+  unfold decodeStrict EofInsideContainer decodeStrictE
+  have hr := rel_values (inp.length + 1) inp false
+  cases h1 : values true (inp.length + 1) inp false with
+  | error e => rw [h1] at h; simp [toOpt] at h
+  | ok r1 =>
+    rw [h1] at h hr
+    cases h2 : values false (inp.length + 1) inp false with
+    | ok r2 => rw [h2] at hr; simp only [Rel] at hr; subst hr; left; exact h
+    | error e => rw [h2] at hr; simp only [Rel] at hr; subst hr; right; rfl
+
+/-! ### Non-vacuity (tests) -/
+
+example : decodeImpl [cI, 52, 52, cE] = some [.int 44] := rfl      -- "i44e"
+example : decodeStrict [cL, cI, 49, cE] = none ∧ decodeImpl [cL, cI, 49, cE] = some [.list [.int 1]] ∧
+    EofInsideContainer [cL, cI, 49, cE] = true := ⟨rfl, rfl, rfl⟩
+example : decodeImpl [48] = none := rfl                 -- "0": no ':' (was accepted before the fix)
+example : decodeImpl [cI, cMinus, 48, cE] = none := rfl
+
 end Rdest.Props.C16
